@@ -9,6 +9,7 @@ Inductive rec_call :=
 | CallReset.
 
 Record c18_case := C18Case {
+  c18_server_major : N;                 (* 1 for a real server; 0 = the zero version GetAPIVersion returns for an unstamped binary *)
   c18_server_minor : N;
   c18_calls : list rec_call;
   c18_gathered : list (series * N)      (* non-zero series reported by the registry afterwards *)
@@ -16,6 +17,19 @@ Record c18_case := C18Case {
 
 Definition req_of (o : operation) (g res sub : string) : request :=
   Request g res sub "" "" "" o ONil ONil None.
+Definition ops_of_v (server : version) (calls : list rec_call) : list rec_op :=
+  flat_map (fun c => match c with
+                     | CallReset => [Reset]
+                     | CallEvent o g res sub e =>
+                         match series_of server (req_of o g res sub) e with
+                         | Some k => [Rec k] | None => [] end
+                     end) calls.
+Definition server_of (c : c18_case) : version := V (c18_server_major c) (c18_server_minor c).
+(** the label bound for the server version in force: v1.n -> latest, future, v1.0..v1.n; the zero version -> latest, future *)
+Definition label_ok (c : c18_case) (l : string) : bool :=
+  if N.eqb (c18_server_major c) 1 then P18_label (c18_server_minor c) l
+  else if N.eqb (c18_server_major c) 0 then String.eqb l "latest" || String.eqb l "future"
+  else false.
 Definition ops_of (server_minor : N) (calls : list rec_call) : list rec_op :=
   flat_map (fun c => match c with
                      | CallReset => [Reset]
@@ -29,15 +43,15 @@ Definition version_label_of (k : series) : option string :=
   if String.eqb (fst k) "pod_security_evaluations_total" then nth_error (snd k) 2 else None.
 
 Definition propfail_c18 (c : c18_case) : bool :=
-  negb (P18_counts (ops_of (c18_server_minor c) (c18_calls c)) (c18_gathered c))
+  negb (P18_counts (ops_of_v (server_of c) (c18_calls c)) (c18_gathered c))
   || existsb (fun kv : series * N =>
                 match version_label_of (fst kv) with
-                | Some l => negb (P18_label (c18_server_minor c) l)
+                | Some l => negb (label_ok c l)
                 | None => false end) (c18_gathered c).
 
 Definition nonzero (st : counters) : counters := filter (fun kv : series * N => negb (N.eqb (snd kv) 0)) st.
 Definition mismatch_c18 (c : c18_case) : bool :=
-  let m := nonzero (run_ops (ops_of (c18_server_minor c) (c18_calls c))) in
+  let m := nonzero (run_ops (ops_of_v (server_of c) (c18_calls c))) in
   negb (Nat.eqb (List.length m) (List.length (c18_gathered c))
         && forallb (fun kv : series * N => N.eqb (get (fst kv) m) (snd kv)) (c18_gathered c)).
 Definition run_c18 (cs : list c18_case) : list N * list N :=
